@@ -31,13 +31,12 @@ fn lexeme(kind: &Kind, v: u64) -> &'static str {
                 "$T"
             }
         }
-        Kind::Attr => {
-            if alt {
-                "#[derive(Debug, Clone)]"
-            } else {
-                "#[a]"
-            }
-        }
+        // the only token kind that can contain non-ASCII text
+        Kind::Attr => match v % 3 {
+            0 => "#[a]",
+            1 => "#[derive(Debug, Clone)]",
+            _ => "#[doc = \"é€😀\"]",
+        },
         Kind::StartKw => "start",
         Kind::StructKw => "struct",
         Kind::EnumKw => "enum",
